@@ -622,9 +622,22 @@ func callSSA(i *interpreter, caller *frame, callpos token.Pos, fn *ssa.Function,
 		if ps.initMode && caller != nil && fn.Name() == "init" && fn.Pkg != nil && fn == fn.Pkg.Func("init") {
 			return nil // imported packages are initialised separately, in dependency order
 		}
+		if ps.initMode && strings.HasPrefix(fn.Name(), "init#") && fn.Pkg != nil && strings.HasSuffix(fn.Pkg.Pkg.Path(), "/gotree/cmd") {
+			return nil // flag registration is not executed (C19 reads it statically)
+		}
 		if fn.Pkg != nil && i.harnessPkgs[fn.Pkg] && strings.HasPrefix(fn.Name(), "sx") {
 			if ext := sxFuncs[fn.Name()]; ext != nil {
 				return ext(fr, args)
+			}
+		}
+		if fn.Pkg != nil && i.harnessPkgs[fn.Pkg] && !strings.HasPrefix(fn.Name(), "zz_") {
+			// environment stub provided by an in-package harness: zz_<name>
+			if st := fn.Pkg.Func("zz_" + fn.Name()); st != nil && st.Signature.Recv() == nil && fn.Signature.Recv() == nil {
+				if ps.stubs != nil {
+					ps.stubs[fn.String()+" (replaced by harness stub zz_"+fn.Name()+")"] = true
+				}
+				fn = st
+				fr.fn = st
 			}
 		}
 		name := fn.String()
